@@ -17,7 +17,7 @@ PROPS = ['C03_linear', 'C03_zero_to_zero', 'C03_linear_numpy_fresnel', 'C03_line
          'C03_linear_fraunhofer', 'C03_shift_equivariant', 'C03_upsample_linear', 'C03_upsample_zero']
 T_METHODS = ['Angular Spectrum', 'Bandlimited Angular Spectrum', 'Transfer Function Fresnel', 'Impulse Response Fresnel',
              'Seperable Impulse Response Fresnel', 'Incoherent Angular Spectrum', 'custom', 'Fraunhofer']
-N_METHODS = ['Angular Spectrum', 'Bandlimited Angular Spectrum', 'Transfer Function Fresnel', 'Impulse Response Fresnel', 'Fraunhofer',
+N_METHODS = ['Angular Spectrum', 'Bandlimited Angular Spectrum', 'Transfer Function Fresnel', 'Impulse Response Fresnel', 'Fraunhofer', 'Fraunhofer Inverse',
              'Rayleigh-Sommerfeld']
 TOL = {'torch': 2e-4, 'numpy': 1e-9}
 
@@ -106,7 +106,7 @@ def gen_inputs(ctx, n):
     shapes = [(4, 4), (5, 5), (5, 8), (7, 6), (8, 8), (9, 12), (3, 3), (12, 7)]
     for i in range(n):
         shape = list(shapes[i % len(shapes)])
-        lam = rng.uniform(0.4, 0.7); dx = lam * rng.uniform(0.8, 5.0); z = rng.choice([-1, 1]) * rng.uniform(2.0, 30.0)
+        lam = rng.uniform(0.4, 0.7); dx = lam * rng.uniform(0.9, 5.0); z = rng.choice([-1, 1]) * rng.uniform(2.0, 30.0)   # 0.9 / 1.2 >= 1/sqrt 2: valid for the propagator's second wavelength too
         for m in T_METHODS:
             shp = ([2] + shape) if (i % 3 == 0 and m not in ('Fraunhofer',)) else shape
             base = {'api': 'torch', 'method': m, 'shape': shp, 'lam': lam, 'dx': dx, 'z': z, 'fseed': rng.randrange(10 ** 6), 'aperture': i % 2 == 1 and m != 'Fraunhofer'}
@@ -124,7 +124,7 @@ def gen_inputs(ctx, n):
                 out.append(('shift', dict(base, shift=[rng.randint(-3, 3), rng.randint(-3, 3)])))
         if i % 2 == 0 and min(shape) >= 5:
             for m, pt in (('Bandlimited Angular Spectrum', 'back and forth'), ('Angular Spectrum', 'forward'), ('Transfer Function Fresnel', 'back and forth')):
-                base = {'api': 'propagator', 'method': m, 'ptype': pt, 'shape': shape, 'lam': lam, 'dx': dx, 'z': abs(z), 'fseed': rng.randrange(10 ** 6), 'channel': i % 2, 'depth': (i // 2) % 2, 'aperture': m != 'Angular Spectrum'}
+                base = {'api': 'propagator', 'method': m, 'ptype': pt, 'shape': shape, 'lam': lam, 'dx': dx, 'z': abs(z), 'fseed': rng.randrange(10 ** 6), 'channel': (i // 2) % 2, 'depth': (i // 4) % 2, 'aperture': m != 'Angular Spectrum'}
                 out.append(('linear', base))
     return out
 
